@@ -1243,14 +1243,24 @@ class Inliner:
 
     # -- eligibility -----------------------------------------------------------------------------------------------
     # a function that performs one of these calls plays a role the rules look for by what it does, whatever it is called (the function
-    # that restores an instance on demand = the one that calls reconstruct_instance): it stays a unit, its callers keep the call
-    ROLE_CALLS = {"reconstruct_instance"}
+    # that restores an instance on demand = the one that calls load_instance and reconstruct_instance).  Where several call sites share
+    # it, it stays a unit and its callers keep the call; extracted for a single caller it is looked through like any helper
+    ROLE_CALLS = ({"load_instance", "reconstruct_instance"},)       # every call of one set: the on-demand restorer
 
     def _eligible(self, h: ast.FunctionDef) -> bool:
         if h.name in self.vocab or _has_yield(h) or h.args.kwarg:
             return False
-        if any(isinstance(c, ast.Call) and isinstance(c.func, ast.Attribute) and c.func.attr in self.ROLE_CALLS for c in ast.walk(h)):
-            return False
+        called = {c.func.attr for c in ast.walk(h) if isinstance(c, ast.Call) and isinstance(c.func, ast.Attribute)}
+        if any(role <= called for role in self.ROLE_CALLS):
+            if getattr(self, "_site_counts", None) is None:
+                self._site_counts = {}
+                for c in ast.walk(self.tree):
+                    if isinstance(c, ast.Call):
+                        nm = c.func.attr if isinstance(c.func, ast.Attribute) else (c.func.id if isinstance(c.func, ast.Name) else None)
+                        if nm:
+                            self._site_counts[nm] = self._site_counts.get(nm, 0) + 1
+            if self._site_counts.get(h.name, 0) >= 2:
+                return False
         for d in h.decorator_list:
             if not (isinstance(d, ast.Name) and d.id in ("staticmethod", "classmethod")):
                 return False
